@@ -15,7 +15,7 @@ META = dict(
              "NaN stopping (C03)", "float64 rounding of l + xn*(u-l)"],
     stubs=["hash->const for symbolic keys (hashable_ndarray.xxh3_64_hexdigest)", "hashable_ndarray.np_array keeps the SymArray subclass on copy",
            "Variable bounds written into Variable.__dict__ (representation invariant l<=u assumed)"],
-    assumptions=["with round_ints=False the requested integer components are integral (the driver handles integers itself)", "user function and Jacobian are uninterpreted symbols of the physical point", "normalized request components lie in [0,1]", "integer components are requested within [lb-1, ub+1]",
+    assumptions=["with round_ints=False the requested integer components are integral (the driver handles integers itself)", "user function and Jacobian are uninterpreted symbols of the physical point", "normalized request components lie in [0,1]", "integer components are requested within [lb-1, ub+1] and not in [-1/2, 0) (rounding to -0.0)",
                  "integer variables have concrete bounds"],
 )
 
@@ -76,6 +76,8 @@ def h_requests(ctx, cfg):
                 ctx.assume(ctx.and_(ctx.le(0.0, pe[j]), ctx.le(pe[j], 1.0)))
             if info.is_int[j]:
                 ctx.assume(ctx.and_(ctx.le(info.lb[j] - 1.0, pe[j]), ctx.le(pe[j], info.ub[j] + 1.0)))
+                # a request in (-1/2, 0) rounds to -0.0, which equals 0.0 but has another byte hash (outside the claim, see META)
+                ctx.assume(ctx.or_(ctx.le(0.0, pe[j]), ctx.lt(pe[j], -0.5)))
             if info.is_int[j] and not round_ints:
                 # round_ints=False is for drivers that handle integer variables themselves: they request integral values
                 ctx.assume(ctx.is_int(pe[j]))
@@ -292,7 +294,7 @@ def _all_eq(ctx, a, b):
 def configs(tier):
     out = []
     K = 2 if tier == "quick" else 3
-    lays = ["B", "BB", "BE", "BU", "LR", "E", "Ci", "iC"] if tier == "quick" else list(LAYOUTS)
+    lays = ["B", "BB", "BE", "BU", "LR", "BL", "E", "Ci", "iC"] if tier == "quick" else list(LAYOUTS)
     for lay in lays:
         has_int = "i" in lay
         for normalized in (True, False):
@@ -307,6 +309,8 @@ def configs(tier):
                         if lay in ("B", "BB", "BE", "Ci"):
                             out.append(("requests", dict(layout=lay, m=1, scalar=True, normalized=normalized, use_db=use_db, store_jac=store_jac,
                                                          round_ints=round_ints, K=K)))
+                        if lay in ("B", "BB", "BE", "Ci", "BU", "LR", "BL", "iC", "CUi"):
+                            # linear functions take their own normalization path (MDOLinearFunction.normalize): every kind of component
                             out.append(("requests", dict(layout=lay, m=2, fkind="linear", normalized=normalized, use_db=use_db, store_jac=store_jac,
                                                          round_ints=round_ints, K=K)))
     for lay in (["B", "BE", "BU"] if tier == "quick" else ["B", "BB", "BE", "BU", "LR", "E", "B,B"]):
